@@ -417,7 +417,13 @@ func (srv *server) registerClient(connect *packets.Connect, client *client) (ses
 	srv.statsManager.clientConnected(client.opts.ClientID)
 
 	if oldSession != nil {
-		if !oldSession.IsExpired(now) && !connect.CleanStart {
+		// The session expiry interval is counted from the end of the last network connection,
+		// which is what offlineClients records; fall back to the stored connect time otherwise.
+		expired := oldSession.IsExpired(now)
+		if expiredAt, ok := srv.offlineClients[oldSession.ClientID]; ok {
+			expired = now.After(expiredAt)
+		}
+		if !expired && !connect.CleanStart {
 			sessionResume = true
 		}
 		// clean old session
